@@ -16,9 +16,10 @@
 (*   absolute_form, origin_form)         src/service/http.rs                *)
 (*   HttpConnection::send_request -> hyper                                 *)
 (* `out.classes` is the set of outcome classes the stage reached allows     *)
-(* ("resp", "err", "panic"); where hyper or the certificate decide and the  *)
-(* abstract class does not determine the result, both "resp" and "err" are  *)
-(* allowed.  The property: "panic" is never an outcome.                     *)
+(* ("resp", "err", "panic", "stall"); where hyper or the certificate decide *)
+(* and the abstract class does not determine the result, both "resp" and    *)
+(* "err" are allowed.  The property: "panic" (and "stall", a poll that      *)
+(* never returns) is never an outcome.                                      *)
 (*                                                                         *)
 (* `asBuilt` (a variable fixed in Init, DESIGN 2.4) selects the            *)
 (* transcription of the pinned tree where it deviates (DESIGN D6, D9):      *)
@@ -27,6 +28,8 @@
 (*   - TlsStream::new: `.expect("should be valid dns name")`                *)
 (*   - authority_form: `unreachable!` for a CONNECT without authority       *)
 (*   - absolute_form: debug assertions on scheme / authority (debug builds) *)
+(*   - EyeballSet::process_all: happy_eyeballs_concurrency as a loop bound   *)
+(*     (D20: Some(usize::MAX) never returns from the poll)                   *)
 (*                                                                         *)
 (* C17 quantifies over "inputs, CONFIGURATIONS": besides the request the    *)
 (* vector carries the configuration of the stack and the HISTORY of the     *)
@@ -125,11 +128,31 @@ Relevant(x, d) == CASE d \in PoolDims    -> HasPool(x)
                     [] d \in BuilderDims -> x.stack = "client"
                     [] d \in TcpDims     -> x.net = "tcp"
                     [] OTHER             -> TRUE
-\* pin what cannot matter; give the URI form the host it needs
-Norm(x) == LET y == [x EXCEPT !.host = IF HasAuthority(x) THEN (IF x.host = "none" THEN "name" ELSE x.host) ELSE "none"]
-               z == [d \in Fields |-> IF d \in BuilderDims /\ ~Relevant(y, d) THEN Centre[d] ELSE y[d]]
-           IN  [d \in Fields |-> IF d \in Dims /\ ~Relevant(z, d) THEN Centre[d] ELSE z[d]]
-Ext(b) == [d \in Fields |-> IF d \in DOMAIN b THEN b[d] ELSE Centre[d]]
+\* pin what cannot matter; give the URI form the host it needs (explicit record constructors: TLC is an order of
+\* magnitude faster on records than on functions with a string domain)
+Norm(x) == LET cl  == x.stack = "client"
+               pl  == IF cl THEN x.pool ELSE Centre.pool
+               hp  == (cl /\ pl = "on") \/ x.stack = "pool"
+               tcp == x.net = "tcp"
+           IN  [ver |-> x.ver, method |-> x.method, uri |-> x.uri,
+                host |-> IF HasAuthority(x) THEN (IF x.host = "none" THEN "name" ELSE x.host) ELSE "none",
+                stack |-> x.stack, transport |-> x.transport, net |-> x.net,
+                pool |-> pl,
+                idle |-> IF hp THEN x.idle ELSE Centre.idle,
+                maxidle |-> IF hp THEN x.maxidle ELSE Centre.maxidle,
+                cap |-> IF hp THEN x.cap ELSE Centre.cap,
+                rto |-> IF cl THEN x.rto ELSE Centre.rto,
+                redir |-> IF cl THEN x.redir ELSE Centre.redir,
+                ct |-> IF tcp THEN x.ct ELSE Centre.ct,
+                het |-> IF tcp THEN x.het ELSE Centre.het,
+                hec |-> IF tcp THEN x.hec ELSE Centre.hec,
+                ka |-> IF tcp THEN x.ka ELSE Centre.ka,
+                buf |-> IF tcp THEN x.buf ELSE Centre.buf,
+                hist |-> x.hist, da |-> x.da]
+Ext(b) == [ver |-> b.ver, method |-> b.method, uri |-> b.uri, host |-> b.host, stack |-> b.stack,
+           transport |-> b.transport, net |-> Centre.net, pool |-> Centre.pool, idle |-> Centre.idle,
+           maxidle |-> Centre.maxidle, cap |-> Centre.cap, rto |-> Centre.rto, redir |-> Centre.redir, ct |-> Centre.ct,
+           het |-> Centre.het, hec |-> Centre.hec, ka |-> Centre.ka, buf |-> Centre.buf, hist |-> Centre.hist, da |-> b.da]
 
 IsVector(x) == /\ DOMAIN x = Fields
                /\ \A d \in Dims : x[d] \in Dom[d]
@@ -143,9 +166,16 @@ LastPrev(x) == CASE x.hist = "first" -> "none"
                  [] x.hist \in PrevStates -> x.hist
                  [] OTHER -> CHOOSE b \in PrevStates : \E a \in PrevStates : x.hist = a \o "-" \o b
 
+\* the base grammar as full vectors (every other dimension at the centre)
+BaseFull == {x \in [ver : Vers, method : Methods, uri : UriForms, host : Hosts, stack : Stacks, transport : Transports,
+                    net : {Centre.net}, pool : {Centre.pool}, idle : {Centre.idle}, maxidle : {Centre.maxidle},
+                    cap : {Centre.cap}, rto : {Centre.rto}, redir : {Centre.redir}, ct : {Centre.ct}, het : {Centre.het},
+                    hec : {Centre.hec}, ka : {Centre.ka}, buf : {Centre.buf}, hist : {Centre.hist}, da : BOOLEAN] :
+               (x.host = "none") = ~HasAuthority(x)}
+
 \* the set of vectors a configuration file checks / generates (MC_Pipeline overrides: base grammar plus the
 \* configuration x history neighbourhoods and samples)
-InitVectors == {Ext(b) : b \in BaseVectors}
+InitVectors == BaseFull
 
 Init == /\ v \in InitVectors
         /\ asBuilt \in BOOLEAN
@@ -193,31 +223,40 @@ ConnVersion(x) == IF x.ver = "2" \/ (TlsRoute(x) /\ x.transport = "tlsalpn") THE
 
 \* ---- the request timeout of the Client (service::Timeout around everything below) -------------------------
 \* TimeoutFuture polls the inner future first and then a tokio Sleep of the configured duration: Some(0) expires at
-\* the first poll at which the inner future is pending, i.e. as soon as anything has to be awaited; Some(MAX) and
-\* Some(30s) never expire against a peer that answers. The synchronous refusals above (key, version) win the race.
-RtoZero(x) == x.stack = "client" /\ x.rto = "zero"
+\* the first poll at which the inner future is pending, i.e. as soon as anything has to be awaited - under the
+\* paused clock of the in-memory vectors; with a real clock (TCP vectors) the timer fires at the next turn of the
+\* timer wheel and an answer from loopback can win. Some(MAX) and Some(30s) never expire against a peer that
+\* answers. The synchronous refusals above (key, version) win the race.
+RtoZero(x)   == x.stack = "client" /\ x.rto = "zero"
+RtoPasses(x) == ~RtoZero(x) \/ x.net = "tcp"
 ReqTimeoutZero ==
   /\ pc = "checkout" /\ RtoZero(v)
   /\ Finish({"err"}, "reqtimeout")
 
 \* ---- Pool::checkout (only with a pool): a connection a previous request left behind, or a new one -----------
 \* A connection can be waiting only if the pool keeps any (max_idle_per_host > 0), the last thing that happened
-\* was not the peer closing the connections, and the previous requests (same origin, same version) could get one.
-MayReuse(x)  == /\ HasPool(x) /\ Pos(x) > 1 /\ x.maxidle # "zero" /\ LastPrev(x) # "closed"
+\* was not the peer closing every connection (a request still in flight at that moment fails or connects again,
+\* and may then share its new connection), and the previous requests (same origin, same version) could get one.
+NothingLeft(x) == x.hist \in {"closed", "idle-closed", "closed-closed"}
+\* a request in flight may still be connecting: its connection is handed to whoever waits for it (a multiplexed
+\* connection to every waiter) before the idle list and its limit are consulted
+InFlightIn(x)  == \/ x.hist = "inflight"
+                  \/ \E a, b \in PrevStates : x.hist = a \o "-" \o b /\ "inflight" \in {a, b}
+MayReuse(x)  == /\ HasPool(x) /\ Pos(x) > 1 /\ (x.maxidle # "zero" \/ InFlightIn(x)) /\ ~NothingLeft(x)
                 /\ (TlsRoute(x) => NameConverts(x))
 \* ... and is found for certain when the previous request has completed, its connection is kept alive by the
 \* protocol (HTTP/1.1 and HTTP/2), not yet expired (Some(1ns) has always expired; None, Some(0) and Some(MAX)
 \* never do) and the TLS handshake to an unusual name did not fail
-MustReuse(x) == /\ MayReuse(x) /\ LastPrev(x) = "idle" /\ x.idle # "tiny" /\ x.ver \in {"1.1", "2"}
+MustReuse(x) == /\ MayReuse(x) /\ LastPrev(x) = "idle" /\ x.maxidle # "zero" /\ x.idle # "tiny" /\ x.ver \in {"1.1", "2"}
                 /\ x.host # "legal" /\ x.net = "mem"
 CheckoutReuse ==
-  /\ pc = "checkout" /\ ~RtoZero(v) /\ MayReuse(v)
+  /\ pc = "checkout" /\ RtoPasses(v) /\ MayReuse(v)
   /\ conn' = ConnVersion(v)
   /\ out' = [out EXCEPT !.reuse = "yes"]
   /\ pc' = IF Checks(v) THEN "sethost" ELSE "send"
   /\ UNCHANGED <<v, asBuilt>>
 CheckoutDial ==                  \* also every stack without a pool
-  /\ pc = "checkout" /\ ~RtoZero(v) /\ ~MustReuse(v)
+  /\ pc = "checkout" /\ RtoPasses(v) /\ ~MustReuse(v)
   /\ out' = [out EXCEPT !.reuse = "no"]
   /\ pc' = "dial"
   /\ UNCHANGED <<v, asBuilt, conn>>
@@ -230,10 +269,15 @@ CheckoutDial ==                  \* also every stack without a pool
 DialMem ==
   /\ pc = "dial" /\ v.net = "mem"
   /\ Goto("transport")
+\* As built (D20): EyeballSet::process_all starts the first attempts with `for _ in 0..initial_concurrency`, so
+\* happy_eyeballs_concurrency = Some(usize::MAX) ("no limit") spins 2^64 times inside one poll: the future never
+\* returns and never yields ("stall"). Intended: at most as many iterations as there are candidates.
+TcpSpins(x) == asBuilt /\ x.hec = "max"
 DialTcp ==
   /\ pc = "dial" /\ v.net = "tcp"
-  /\ \/ Goto("transport")
+  /\ \/ ~TcpSpins(v) /\ Goto("transport")
      \/ Finish({"err"}, "tcp")
+     \/ TcpSpins(v) /\ Finish({"stall"}, "eyeballs")
 ConnectPlain ==
   /\ pc = "transport" /\ ~TlsRoute(v)
   /\ Goto("protocol")
@@ -318,20 +362,25 @@ Spec == Init /\ [][Next]_vars
 \* spawned for the request; o.returned = the caller got a response or an error
 P_NoPanic(x, o)  == ~o.panicked
 P_Returns(x, o)  == o.returned
+\* o.stuck = a poll of the request's future did not return (the executor thread is blocked: no timeout can fire, no
+\* other task runs); the caller then gets neither a response nor an error, whatever the peer does
+P_NoStall(x, o)  == ~o.stuck
 
 Done    == pc = "done"
 Claimed == Done /\ ~asBuilt
-ModelObs == [panicked |-> "panic" \in out.classes, returned |-> out.classes \subseteq {"resp", "err"} /\ out.classes # {}]
+ModelObs == [panicked |-> "panic" \in out.classes, returned |-> out.classes \subseteq {"resp", "err"} /\ out.classes # {},
+             stuck |-> "stall" \in out.classes]
 
 M_NoPanic == Claimed => P_NoPanic(v, ModelObs)
 M_Returns == Claimed => P_Returns(v, ModelObs)
+M_NoStall == Claimed => P_NoStall(v, ModelObs)
 
 AB == Done /\ asBuilt
-AB_NoPanic == AB => P_NoPanic(v, ModelObs)
+AB_NoPanic == AB => P_NoPanic(v, ModelObs) /\ P_NoStall(v, ModelObs)
 
 TypeOK == /\ IsVector(v) /\ asBuilt \in BOOLEAN /\ conn \in {"none", "h1", "h2"}
           /\ pc \in {"call", "version", "checkout", "dial", "transport", "protocol", "sethost", "h2checks", "h1checks",
                       "send", "done"}
-          /\ out.classes \subseteq {"resp", "err", "panic"} /\ out.reuse \in {"none", "yes", "no"}
+          /\ out.classes \subseteq {"resp", "err", "panic", "stall"} /\ out.reuse \in {"none", "yes", "no"}
 Progress == pc # "done" => ENABLED Next
 =============================================================================
